@@ -35,7 +35,7 @@ func CalculateLoRaAirtime(payloadSize, sf, bandwidth, preambleNumber int, coding
 
 // CalculateLoRaSymbolDuration calculates the LoRa symbol duration.
 func CalculateLoRaSymbolDuration(sf int, bandwidth int) time.Duration {
-	return time.Duration((1 << uint(sf)) * 1000000 / bandwidth)
+	return time.Duration((int64(1) << uint(sf)) * 1000000 / int64(bandwidth))
 }
 
 // CalculateLoRaPreambleDuration calculates the LoRa preamble duration.
